@@ -214,6 +214,15 @@ def artifactTrace (F : Nat) (i : Nat) (s : SNode V) : Graph V → List Nat → L
   | g, d :: ds, vals =>
     (fun g => (Eval F g d).1) :: artifactTrace F i s (Eval F g d).1 ds (vals ++ [val (Eval F g d).1 d])
 
+/-- the micro-steps of `Artifact(i)` for ANY processor (it may skip inputs): one `.Value()` pull
+    per dependency the processor reads, then the store with the entries collected -/
+def artifactTraceM (F : Nat) (i : Nat) (s : SNode V) : Graph V → List Nat → List (Option V) → List (Graph V → Graph V)
+  | _, [], acc => [fun g => g.set i (.struct (s.executed g acc))]
+  | g, d :: ds, acc =>
+    if s.reads acc then
+      (fun g => (Eval F g d).1) :: artifactTraceM F i s (Eval F g d).1 ds (acc ++ [some (val (Eval F g d).1 d)])
+    else artifactTraceM F i s g ds (acc ++ [none])
+
 /-! ### the fine-grained locked system WITH histories: critical sections are many micro-steps -/
 
 inductive FPc (V : Type) where
